@@ -9,7 +9,7 @@ from pbt.core import Outcome, Raised, SubCheck, bad, import_dsw, lib_call
 PROPERTY = "C14"
 RULE = ("Arbitrary arc subsets of the order-k de Bruijn graph (k = 1..4 quick, ..6 thorough; matrices up to k = 4/5) "
         "drawn by Hypothesis. Oracle: own construction of the latter map / matrix / vertex list from the arc set and "
-        "own enumeration of all d-step walks (d <= 4) for leaf queries; both round trips must be exact. Illegal "
+        "own enumeration of all d-step walks (d <= 7) for leaf queries; both round trips must be exact. Illegal "
         "matrices: every single non-shift arc (16 x 12) added to the empty and to the complete order-2 matrix is "
         "enumerated, and drawn legal matrices plus one drawn non-shift arc for k = 2..3 (order 1 has no illegal arc). Non-trivial: some row has "
         "out-degree 1..3 and some row is empty.")
@@ -22,7 +22,8 @@ def graph_cases(draw, tier):
     kmax = 4 if tier == "quick" else 6
     graph = draw(gens.arc_subsets(1, kmax, {1: 2, 2: 4, 3: 4, 4: 2, 5: 1, 6: 1}))
     n = 4 ** graph["k"]
-    queries = draw(st.lists(st.tuples(st.integers(0, n - 1), st.integers(0, 4)), min_size=1, max_size=4))
+    queries = draw(st.lists(st.tuples(st.integers(0, n - 1), st.one_of(st.integers(0, 4), st.integers(0, 7))),
+                             min_size=1, max_size=4))
     return {"graph": graph, "queries": [list(q) for q in queries],
             "matrix_dtype": draw(st.sampled_from(["int64", "int64", "uint8", "bool", "int32", "uint16", "float64", "int8",
                                                   "int16"])),
@@ -180,7 +181,7 @@ TECHNIQUE = ("property-based testing (Hypothesis) over arbitrary arc subsets wit
              "representation; enumeration of all single illegal arcs at order 2")
 LEVEL_TEXT = ("Generated search over arbitrary arc subsets (not only complete or vertex-induced graphs): exact round "
               "trips accessor<->latter map and accessor<->matrix, latter-map / matrix / vertex-list content against an "
-              "independent construction, leaf queries at depth 0..4 from both representations against an own "
+              "independent construction, leaf queries at depth 0..7 from both representations against an own "
               "enumeration of walks (as multisets); rejection of illegal matrices exhaustively for single non-shift "
               "arcs at order 2 and sampled for orders 2..3.")
 LEVEL_NOTE = "Trusted: arc-set construction and walk enumeration in pbt/oracles.py / this module; numpy equality."
